@@ -1,7 +1,204 @@
 import Driver.Common
+import Log4rsModel.ConfigDoc.Spec
+/-
+C14 driver.  Case fields (after the id):
+  1 refresh_rate   `-` | text
+  2 root           `-` | `<level|->/<names|->`
+  3 loggers        `;`-list of `name/level/<additive 0|1|->/<names|->`
+  4 appenders      `|`-list of `name/K/filters/path/flag/enc/target/pk/trig/roll`
+  5 probes         `,`-list of `target:level`
+  6 key-order seed
+  7 injection class (`-` none)   8 injection path (`,`-list of `k<key>` | `#<index>`)   9 payload
+The document is `shuffle seed (inject (render cfg))`; YAML is interpreted with `seqStructs = false`,
+JSON and TOML with `true`; TOML cannot carry `null`, so null-valued entries are absent there.
+-/
 namespace Driver.C14
-open Driver
+open Log4rs Log4rs.Proto Log4rs.Literals Log4rs.ConfigDoc Log4rs.Routing Driver
 
-def handle : Handler := fun _ _ => badCase "unimplemented"
+def decNames (s : String) : Option (List Key) := mapM? decStr (decList ',' s)
+
+def decOptNames (s : String) : Option (Option (List Key)) := decOpt decNames s
+
+def decRoot (s : String) : Option (Option RootL) :=
+  if s = "-" then some none else
+  match splitOnChar '/' s with
+  | [l, a] =>
+    match decOpt decStr l, decOptNames a with
+    | some level, some appenders => some (some { level, appenders })
+    | _, _ => none
+  | _ => none
+
+def decLogger (s : String) : Option LoggerL :=
+  match splitOnChar '/' s with
+  | [n, l, add, a] =>
+    match decStr n, decStr l, decOpt decBool add, decOptNames a with
+    | some name, some level, some additive, some appenders => some { name, level, additive, appenders }
+    | _, _, _, _ => none
+  | _ => none
+
+def decScalar (s : String) : Option Scalar :=
+  match s.toList with
+  | 'i' :: r => (decInt (String.ofList r)).map .int
+  | 's' :: r => (decStr (String.ofList r)).map .str
+  | _ => none
+
+def decTrig (s : String) : Option TrigL :=
+  match splitOnChar ':' s with
+  | ["s", sc] => (decScalar sc).map .size
+  | ["t", sc, m, d] =>
+    match decScalar sc, decOpt decBool m, decOpt decNat d with
+    | some i, some m, some d => some (.time i m d)
+    | _, _, _ => none
+  | ["o", m] => (decOpt decNat m).map .onstartup
+  | _ => none
+
+def decRoll (s : String) : Option RollL :=
+  match splitOnChar ':' s with
+  | ["d"] => some .delete
+  | ["w", b, n] =>
+    match decOpt decNat b, decNat n with
+    | some b, some n => some (.window b n)
+    | _, _ => none
+  | _ => none
+
+def decEnc (s : String) : Option (Option EncL) :=
+  if s = "-" then some none else
+  match s.toList with
+  | [a, b, c] =>
+    if (a = '0' ∨ a = '1') ∧ (b = '0' ∨ b = '1') ∧ (c = '0' ∨ c = '1') then
+      some (some { kindExplicit := a = '1', json := b = '1', pattern := c = '1' })
+    else none
+  | _ => none
+
+def decApp (s : String) : Option AppL :=
+  match splitOnChar '/' s with
+  | [n, k, f, p, fl, e, t, pk, tr, ro] =>
+    match decStr n, decNat k, decOpt (fun x => mapM? decStr (decList ',' x)) f, decStr p,
+      decOpt decBool fl, decEnc e, decOpt decBool t, decBool pk, decTrig tr, decRoll ro with
+    | some name, some kind, some filters, some path, some flag, some enc, some target, some policyKind,
+      some trig, some roll =>
+      if kind ≤ 2 then some { name, kind, filters, path, flag, enc, target, policyKind, trig, roll }
+      else none
+    | _, _, _, _, _, _, _, _, _, _ => none
+  | _ => none
+
+def decProbe (s : String) : Option (Key × Nat) :=
+  match splitOnChar ':' s with
+  | [t, l] =>
+    match decStr t, decNat l with
+    | some t, some l => if 1 ≤ l ∧ l ≤ 5 then some (t, l) else none
+    | _, _ => none
+  | _ => none
+
+def decStep (s : String) : Option Step :=
+  match s.toList with
+  | 'k' :: r => (decStr (String.ofList r)).map .key
+  | '#' :: r => (decNat (String.ofList r)).map .idx
+  | _ => none
+
+/-- `none` = undecodable, `some none` = delete the entry -/
+def decPayload (s : String) : Option (Option Value) :=
+  match s.toList with
+  | ['X'] => some none
+  | ['N'] => some (some .null)
+  | ['B', '0'] => some (some (.bool false))
+  | ['B', '1'] => some (some (.bool true))
+  | ['F'] => some (some .float)
+  | ['M'] => some (some (.map []))
+  | ['Q', 'i'] => some (some (.seq [.int 1]))
+  | ['Q', 'r'] => some (some (.seq [.str (c!"info"), .seq []]))
+  | 'I' :: r => (decInt (String.ofList r)).map (fun n => some (.int n))
+  | 'S' :: r => (decStr (String.ofList r)).map (fun s => some (.str s))
+  | _ => none
+
+mutual
+def dropNulls : Value → Value
+  | .seq xs => .seq (dropNullsList xs)
+  | .map kvs => .map (dropNullsEntries kvs)
+  | v => v
+def dropNullsList : List Value → List Value
+  | [] => []
+  | v :: vs => dropNulls v :: dropNullsList vs
+def dropNullsEntries : Entries → Entries
+  | [] => []
+  | (_, .null) :: kvs => dropNullsEntries kvs
+  | (k, v) :: kvs => (k, dropNulls v) :: dropNullsEntries kvs
+end
+
+def observe (prog : String) (ss : Bool) (doc : Value) (probes : List (Key × Nat)) : String :=
+  renderLossy probes prog (loadLossy ss doc) ++ " " ++ renderStrict (loadStrict ss doc)
+
+def lastKey : List Step → Key
+  | [] => []
+  | [.key k] => k
+  | [.idx _] => []
+  | _ :: r => lastKey r
+
+def isEnvelope (path : List Step) : Bool :=
+  match path with
+  | [.key top, .key _, .key f] => top = c!"appenders" && (f = c!"kind" || f = c!"filters")
+  | [.key top, .key _, .key f, .idx _] => top = c!"appenders" && f = c!"filters"
+  | [.key top, .key _, .key f, .idx _, .key k] => top = c!"appenders" && f = c!"filters" && k = c!"kind"
+  | _ => false
+
+/-- class of inputs of a specification failure (for `known_findings.json`) -/
+def signature (cls : String) (path : List Step) (payload : Option Value) (impl : String) : String :=
+  if (impl.splitOn "PANIC").length > 1 then
+    if lastKey path = c!"interval" then
+      match payload with
+      | some (.int 0) => "C14/time-trigger-interval-zero-modulate"
+      | _ => "C14/time-trigger-interval-out-of-range"
+    else "C14/panic-" ++ cls
+  else if cls = "seqs" then "C14/seq-for-struct-accepted"
+  else if isEnvelope path ∧ cls ≠ "unk" then "C14/appender-envelope-error-rejects-document"
+  else if (impl.splitOn "DISAGREE").length > 1 then "C14/formats-disagree-" ++ cls
+  else "C14/" ++ cls
+
+def cfgTags (cfg : LogicalConfig) : List String :=
+  (if cfg.root.isNone then ["root-omitted"] else [])
+  ++ (if cfg.refresh.isSome then ["refresh"] else [])
+  ++ (if cfg.appenders.any (·.kind = 0) then ["console"] else [])
+  ++ (if cfg.appenders.any (·.kind = 1) then ["file"] else [])
+  ++ (if cfg.appenders.any (·.kind = 2) then ["rolling"] else [])
+  ++ (if cfg.appenders.any (fun a => (a.filters.getD []).length > 0) then ["filters"] else [])
+  ++ (if cfg.appenders.any (fun a => match a.enc with | some e => e.json | none => false) then ["json-encoder"] else [])
+  ++ (if cfg.appenders.any (fun a => a.enc.isNone) then ["encoder-omitted"] else [])
+  ++ (if cfg.appenders.any (fun a => a.kind = 2 ∧ !a.policyKind) then ["policy-kind-default"] else [])
+  ++ (if cfg.loggers.any (·.additive.isNone) then ["additive-default"] else [])
+  ++ (if cfg.loggers.any (fun l => l.additive = some false) then ["non-additive"] else [])
+  ++ (if cfg.loggers.any (fun l => !checkLoggerName l.name) then ["bad-logger-name"] else [])
+
+def handle : Handler := fun cas obs =>
+  match cas, obs with
+  | [rr, root, loggers, apps, probes, seed, cls, path, payload], [implObs] =>
+    match decOpt decStr rr, decRoot root, mapM? decLogger (decList ';' loggers),
+      mapM? decApp (decList '|' apps), mapM? decProbe (decList ',' probes), decNat seed,
+      mapM? decStep (decList ',' path), decPayload payload with
+    | some refresh, some root, some loggers, some appenders, some probes, some seed, some path,
+      some payload =>
+      let cfg : LogicalConfig := { refresh, root, loggers, appenders }
+      let base := render cfg
+      let injected := if cls = "-" then base else modifyAt path (fun _ => payload) base
+      let doc := shuffle seed injected
+      let yaml := observe (progOf cls) false doc probes
+      let json := observe (progOf cls) true doc probes
+      let toml := observe (progOf cls) true (dropNulls doc) probes
+      let model := renderFormats yaml json toml
+      let acc := acceptable cfg cls path probes
+      let g := granOf cls path
+      let r := meaning cfg
+      let hasDangling := !(buildLossyNames r).buildErrors.isEmpty
+      let tags := [if cls = "-" then "valid" else "inj-" ++ cls,
+          match g with | .none => "gran-none" | .doc => "gran-doc" | .appender _ => "gran-appender"
+                       | .filter _ _ => "gran-filter"]
+        ++ (if hasDangling then ["dangling-or-badname"] else [])
+        ++ cfgTags cfg
+        ++ (if cls = "-" ∧ cfg.appenders.isEmpty ∧ cfg.loggers.isEmpty then ["trivial"] else [])
+      { model,
+        spec := if acc.contains implObs then "ok"
+          else "FAIL:observation differs from the prescribed one;sig=" ++ signature cls path payload implObs,
+        tags }
+    | _, _, _, _, _, _, _, _ => badCase "decode"
+  | _, _ => badCase "arity"
 
 end Driver.C14
